@@ -90,7 +90,7 @@ def _worker(args):
         if outcome == "fallback" and len(samples) < 2:
             samples.append(rs)
         for clause, symptom, detail, observed in results:
-            sig = signature(rs, symptom)
+            sig = signature(rs, symptom) + K.seeded_suffix(tag)
             if symptom.startswith("convert-raises:"):
                 key = f"{symptom.split(':', 1)[1]} | {K.shape_token(rs)}"
                 exc_by_shape[key] = exc_by_shape.get(key, 0) + 1
@@ -169,4 +169,5 @@ def replay(record: dict, ctx: Ctx) -> bool:
     rs = record["input"]["routine_set"]
     want = record["signature"]
     results, _ = check(rs)
-    return any(signature(rs, symptom) == want for _c, symptom, _d, _o in results)
+    tag = record["input"].get("tag", "")
+    return any(signature(rs, symptom) + K.seeded_suffix(tag) == want for _c, symptom, _d, _o in results)
